@@ -322,6 +322,12 @@ def fam_module_global(tier):
         "assign-after": "global x\nx = 1\nprint(x)\n",
         "in-function-too": "global y\ny = 2\ndef f():\n    global y\n    y += 1\n    return y\nprint(f(), y)\n",
         "several": "global a, b\na = b = 0\nprint(a, b)\n",
+        # a `global` in a class body is not redundant: it makes the class-body assignment a module global
+        "class-body": "global top\ntop = 1\nclass C:\n    global level\n    level = 3\n    local_only = 4\nprint(top, level, sorted(k for k in vars(C) if not k.startswith('_')))\n",
+        "class-in-function": "global top\ntop = 1\ndef make():\n    class C:\n        global made\n        made = 5\n    return C\nmake()\nprint(top, made)\n",
+        "function-body": "global top\ntop = 0\ndef bump():\n    global top\n    top += 1\nbump(); bump()\nprint(top)\n",
+        "nested-function": "global top\ntop = 0\ndef outer():\n    def inner():\n        global top\n        top = 7\n    inner()\nouter()\nprint(top)\n",
+        "if-at-module-level": "import sys\nif sys.maxsize > 0:\n    global flag\n    flag = True\nprint(flag)\n",
     }
     return "pixee:python/remove-module-global", [(k, v) for k, v in bodies.items()]
 
